@@ -1,19 +1,25 @@
 (* C08 — each Send / SendRaw / SendIQ puts exactly the serialised stanza (or the
    raw string) on the wire, whole and once, also with concurrent senders, with
    stream management and the traffic logger on or off, for client and component;
-   a failed write is reported.  Statements only; proofs in Proofs/SendP.v.
+   a failed write is reported.  Statements only; proofs in Proofs/SendP.v (one sender),
+   Proofs/SendLockP.v (concurrent senders at the level of sendMu and chunked socket
+   writes), Proofs/SendWireP.v (composition with the codec).
    Strings are byte strings; [data] is what xml.Marshal returned (the codec is C01). *)
 From Coq Require Import List ZArith NArith Bool Arith Permutation.
-From XV Require Import Lib.Sx Model.Queue Model.Send Proofs.SendP.
+From XV Require Import Lib.Sx Model.Queue Model.Send Proofs.SendP
+  Model.SendLock Proofs.SendLockP
+  Model.XmlTree Model.XmlPrint Model.XmlLex Model.XmlBridge Model.Parser Proofs.SendWireP.
 Import ListNotations.
 Local Open Scope nat_scope.
 
 (* ---- exactly one transport write, carrying the whole data ---- *)
 
 (* Every op that gets to a connected transport makes exactly one Write call,
-   whose argument is the data; a SendIQ with a type other than get/set, a send
-   without a transport and a send on a transport that was never connected make
-   none (socket and log untouched) and return an error; nil is only ever
+   whose argument is the data (over WebSocket: one text message carrying the
+   data); a SendIQ with a type other than get/set or with an id that is still
+   awaiting its response, a send without a transport and a send on a transport
+   that is not connected (or behind the closed send gate of a reconnecting
+   client) make none (socket and log untouched) and return an error; nil is only ever
    returned by an op that wrote. *)
 Theorem C08_one_write : forall cfg so lo st o,
   (attempts cfg o = true ->
@@ -25,8 +31,8 @@ Theorem C08_one_write : forall cfg so lo st o,
   (snd (step cfg so lo st o) = RNil -> attempts cfg o = true).
 Proof. exact one_write. Qed.
 
-Theorem C08_rejected_iq_no_write : forall cfg so lo st d,
-  step cfg so lo st (OSendIQ d TOther) = (st, RReject).
+Theorem C08_rejected_iq_no_write : forall cfg so lo st d t, iq_refused t = true ->
+  step cfg so lo st (OSendIQ d t) = (st, RReject).
 Proof. exact rejected_iq_no_write. Qed.
 
 (* Over a whole history, every configuration, every fault oracle: the list of
@@ -43,14 +49,14 @@ Proof. intros. exact (one_write_run cfg so lo ops st0). Qed.
 Theorem C08_queue : forall cfg so lo st o,
   s_queue (fst (step cfg so lo st o)) =
   if reaches cfg o && pushes cfg o then
-    if is_nil (snd (step cfg so lo st o)) then q_push (s_queue st) (op_data o)
+    if SendP.is_nil (snd (step cfg so lo st o)) then q_push (s_queue st) (op_data o)
     else q_drop_last (q_push (s_queue st) (op_data o))
   else s_queue st.
 Proof. exact step_queue. Qed.
 
 Theorem C08_queue_held_iff_sent : forall cfg so lo st o,
   q_items (s_queue (fst (step cfg so lo st o))) =
-  if reaches cfg o && pushes cfg o && is_nil (snd (step cfg so lo st o))
+  if reaches cfg o && pushes cfg o && SendP.is_nil (snd (step cfg so lo st o))
   then q_items (q_push (s_queue st) (op_data o)) else q_items (s_queue st).
 Proof. exact step_queue_items. Qed.
 
@@ -64,8 +70,9 @@ Theorem C08_sock_error_reported : forall cfg so lo st o, attempts cfg o = true -
   w_is_err (so (length (s_sock st))) = true -> snd (step cfg so lo st o) <> RNil.
 Proof. exact sock_error_reported. Qed.
 
+(* TCP transport with the stream logger: it checks the byte counts itself *)
 Theorem C08_logger_faults_reported : forall cfg so lo st o, attempts cfg o = true ->
-  c_log cfg = true ->
+  c_ws cfg = false -> c_log cfg = true ->
   w_whole (so (length (s_sock st))) (op_data o) = false \/
   w_is_err (lo (S (length (s_log st)))) = true \/
   w_whole (lo (S (length (s_log st)))) (op_data o) = false ->
@@ -79,62 +86,146 @@ Proof. exact failure_is_error. Qed.
 
 Theorem C08_success_is_nil : forall cfg so lo st o, attempts cfg o = true ->
   so (length (s_sock st)) = WOk ->
-  (c_log cfg = false \/ lo (S (length (s_log st))) = WOk) ->
+  (c_ws cfg = true \/ c_log cfg = false \/ lo (S (length (s_log st))) = WOk) ->
   snd (step cfg so lo st o) = RNil.
 Proof. exact success_is_nil. Qed.
 
-(* nil => the socket took the data whole.  Without the logger this needs the
-   socket to honour the io.Writer contract (n < len p only with an error):
-   sendWithWriter ignores the byte count. *)
+(* WebSocket transport (websocket_transport.go Write): the call returns exactly the
+   socket's verdict on the one message; whatever the traffic log does has no
+   influence, and there is no byte count to check *)
+Theorem C08_ws_failure_reported : forall cfg so lo st o, attempts cfg o = true -> c_ws cfg = true ->
+  (snd (step cfg so lo st o) = RNil <-> w_is_err (so (length (s_sock st))) = false).
+Proof. exact ws_failure_reported. Qed.
+
+(* ... and its traffic log, when there is one, gets ONE write, "SEND:\n" ++ p ++ "\n\n",
+   before the socket and whatever the socket then does *)
+Theorem C08_ws_log_before_socket : forall cfg so lo st p, c_conn cfg = CUp -> c_ws cfg = true ->
+  s_log (fst (transport_write cfg so lo st p)) =
+  s_log st ++ (if c_log cfg then [log_prefix ++ p ++ log_sep] else []).
+Proof. exact ws_log_calls. Qed.
+
+(* nil => the socket took the data whole.  Unless the transport checks the byte
+   count itself (only the TCP transport's stream logger does: checks_count) this
+   needs the socket to honour the io.Writer contract (n < len p only with an
+   error): sendWithWriter ignores the byte count. *)
 Theorem C08_success_whole : forall cfg so lo st o,
-  snd (step cfg so lo st o) = RNil -> c_log cfg = true \/ conforming so ->
+  snd (step cfg so lo st o) = RNil -> checks_count cfg = true \/ conforming so ->
   accepted (so (length (s_sock st))) (op_data o) = op_data o.
 Proof. exact success_whole. Qed.
 
 (* all calls returned nil => the byte stream the socket took is the
    concatenation of the data strings, in call order *)
 Theorem C08_wire_stream : forall cfg so lo ops,
-  c_log cfg = true \/ conforming so ->
+  checks_count cfg = true \/ conforming so ->
   Forall (fun r => r = RNil) (fst (run cfg so lo st0 ops)) ->
   stream so 0 (s_sock (snd (run cfg so lo st0 ops))) = concat (writes_of cfg ops).
 Proof. exact wire_stream. Qed.
 
+(* In ANY history - rejected requests, missing connections, failed writes around
+   it - a send that returned nil has its whole data in the socket's byte stream,
+   as the argument of its own (the k-th) write, between what the earlier and the
+   later writes left there. *)
+Theorem C08_each_success_whole : forall cfg so lo ops j o,
+  checks_count cfg = true \/ conforming so ->
+  nth_error ops j = Some o ->
+  nth_error (fst (run cfg so lo st0 ops)) j = Some RNil ->
+  let calls := s_sock (snd (run cfg so lo st0 ops)) in
+  let k := length (writes_of cfg (firstn j ops)) in
+  nth_error calls k = Some (op_data o) /\
+  stream so 0 calls =
+    stream so 0 (firstn k calls) ++ op_data o ++ stream so (S k) (skipn (S k) calls).
+Proof. exact each_success_whole. Qed.
+
 (* ---- the logger is transparent ---- *)
 
-(* Same socket calls and same socket byte stream with and without the logger,
-   for every history, every socket fault oracle and whatever the log file does. *)
-Theorem C08_logger_transparent : forall r sm c so lo lo' ops,
-  s_sock (snd (run (mkC r sm true c) so lo st0 ops)) =
-  s_sock (snd (run (mkC r sm false c) so lo' st0 ops)) /\
-  stream so 0 (s_sock (snd (run (mkC r sm true c) so lo st0 ops))) =
-  stream so 0 (s_sock (snd (run (mkC r sm false c) so lo' st0 ops))).
+(* Same socket calls and same socket byte stream with and without the traffic log,
+   for every history, every socket fault oracle, whatever the log file does, over
+   either transport. *)
+Theorem C08_logger_transparent : forall r sm c ws so lo lo' ops,
+  s_sock (snd (run (mkC r sm true c ws) so lo st0 ops)) =
+  s_sock (snd (run (mkC r sm false c ws) so lo' st0 ops)) /\
+  stream so 0 (s_sock (snd (run (mkC r sm true c ws) so lo st0 ops))) =
+  stream so 0 (s_sock (snd (run (mkC r sm false c ws) so lo' st0 ops))).
 Proof. exact logger_transparent. Qed.
 
 (* With a working log file and a conforming socket the calls return the same. *)
-Theorem C08_logger_results : forall r sm c so lo lo' ops,
+Theorem C08_logger_results : forall r sm c ws so lo lo' ops,
   healthy lo -> conforming so ->
-  fst (run (mkC r sm true c) so lo st0 ops) = fst (run (mkC r sm false c) so lo' st0 ops).
+  fst (run (mkC r sm true c ws) so lo st0 ops) = fst (run (mkC r sm false c ws) so lo' st0 ops).
 Proof. exact logger_results. Qed.
 
-(* what a fault-free logged write leaves in the log: "SEND:\n", p, "\n\n" *)
+(* TCP transport: what a fault-free logged write leaves in the log: "SEND:\n", p, "\n\n",
+   and nothing but the prefix is logged unless the socket took the data *)
 Theorem C08_log_format : forall so lo st p,
   snd (logger_write so lo st p) = None ->
   s_log (fst (logger_write so lo st p)) = s_log st ++ [log_prefix; p; log_sep].
 Proof. exact logger_log_calls. Qed.
 
-(* ---- concurrent senders ---- *)
+(* ---- concurrent senders on one client: what sendMu gives ---- *)
 
-(* Any number of senders, each performing any op list, any schedule of atomic
-   transport writes: once all are done, the write list is a merge of the
-   senders' data lists, the byte stream is its concatenation (each string
-   whole), and every string occurs exactly as often as it was sent. *)
-Theorem C08_wire_is_interleaving : forall cfg (senders : list (list op)) rem w,
+(* Model/SendLock.v: a write of a string is several socket steps (chunks), any sender
+   may run between two steps; a sender takes sendMu, pushes, writes, drops the entry
+   again if the write failed, releases.  Any number of senders, any call lists, any
+   schedule, any socket fault oracle.  Once every call has returned:
+   - the byte stream is the concatenation, in lock order, of what the socket accepted
+     of each whole string: nothing of one string lies inside another;
+   - the strings in lock order are a merge of the senders' lists (each exactly once,
+     each sender's own order kept);
+   - the k-th write got the oracle's k-th outcome, and every call returned nil exactly
+     when its write was not refused;
+   - the queue holds, numbered 1, 2, ... in wire order, exactly the held strings whose
+     write succeeded. *)
+Theorem C08_lock_wire_whole : forall so todos st,
+  lreach true so (linit todos) st -> lall_done st ->
+  l_wire st = lwire_of (l_log st) /\
+  interleavings (todo_data todos) (map e_data (l_log st)) /\
+  (forall k e, nth_error (l_log st) k = Some e -> e_res e = so k) /\
+  (forall i, i < length todos ->
+     ls_res (nth i (l_snd st) dflt_sender) = map e_ok (lproj i (l_log st))) /\
+  map snd (q_items (l_queue st)) = map e_data (filter held_ok (l_log st)) /\
+  map fst (q_items (l_queue st)) =
+    map Z.of_nat (seq 1 (length (filter held_ok (l_log st)))).
+Proof. exact lock_wire_whole. Qed.
+
+(* for client op lists and a socket that takes everything: the byte stream is the
+   concatenation of a merge of the senders' data strings *)
+Theorem C08_lock_makes_writes_atomic : forall cfg (senders : list (list op)) st,
+  lreach true (fun _ => WOk) (linit (map (todo_of cfg) senders)) st -> lall_done st ->
+  exists w, interleavings (map (writes_of cfg) senders) w /\ l_wire st = concat w.
+Proof. exact lock_makes_writes_atomic. Qed.
+
+(* at every moment (also in the middle of a write) the wire is a prefix of that *)
+Theorem C08_lock_wire_prefix : forall so todos st,
+  lreach true so (linit todos) st ->
+  exists rest, l_wire st ++ rest = lwire_of (l_log st).
+Proof. exact lock_exclusive. Qed.
+
+(* The lock is what these rest on.  Same model, senders that do not take it: "ab" and
+   "cd" can end up as "acbd", which is no arrangement of the two strings ... *)
+Theorem C08_nolock_tears_refuted :
+  lreach false (fun _ => WOk) (linit torn_todos) torn_state /\ lall_done torn_state /\
+  forall w, Permutation w (concat (todo_data torn_todos)) -> l_wire torn_state <> concat w.
+Proof. exact nolock_tears. Qed.
+
+(* ... and a failed sender's DropLast can take another sender's entry off the queue:
+   the stanza that was sent is not held, the one that was not sent is (the
+   unsynchronised bookkeeping repaired by /repo 69778a1 and 7def96f). *)
+Theorem C08_nolock_loses_queue_entry_refuted :
+  lreach false lost_oracle (linit lost_todos) lost_state /\ lall_done lost_state /\
+  map snd (q_items (l_queue lost_state)) <> map e_data (filter held_ok (l_log lost_state)).
+Proof. exact nolock_loses_queue_entry. Qed.
+
+(* ---- senders whose atomicity is the transport's ---- *)
+
+(* A Component takes no lock, keepalive pings and Close write on the connection
+   directly, and a WebSocket message is one library call: there a Write is atomic by
+   the contract of net.Conn / tls.Conn / websocket.Conn (trusted, exercised by the
+   stress runs).  Under that assumption - one step = one whole write - every
+   complete trace puts a merge of the senders' data lists on the wire. *)
+Theorem C08_atomic_writes_merge : forall cfg (senders : list (list op)) rem w,
   creach (map (writes_of cfg) senders, []) (rem, w) -> all_done rem ->
-  interleavings (map (writes_of cfg) senders) w /\
-  wire_bytes w = concat w /\
-  (forall s, count_occ str_dec w s = count_occ str_dec (concat (map (writes_of cfg) senders)) s) /\
-  length w = length (concat (map (writes_of cfg) senders)).
-Proof. exact wire_is_interleaving. Qed.
+  interleavings (map (writes_of cfg) senders) w.
+Proof. intros cfg senders rem w H Hd. exact (proj1 (wire_is_interleaving cfg senders rem w H Hd)). Qed.
 
 (* the writes of sender j, read off the wire, are sender j's data in its order *)
 Theorem C08_wire_order_per_sender : forall cfg (senders : list (list op)) rem w,
@@ -143,18 +234,37 @@ Theorem C08_wire_order_per_sender : forall cfg (senders : list (list op)) rem w,
           (seq 0 (length senders)) senders.
 Proof. exact wire_order_per_sender. Qed.
 
-(* a merge is a permutation of all strings sent *)
+(* a merge loses and duplicates nothing *)
 Theorem C08_merge_is_permutation : forall (ls : list (list str)) w,
   interleavings ls w -> Permutation w (concat ls).
 Proof. exact (interleavings_perm str). Qed.
 
-(* every merge can happen (the statement above is not about an empty set) *)
+(* every merge can happen (the statements above are not about an empty set) *)
 Theorem C08_every_merge_reachable : forall (ls : list (list str)) m,
   interleavings ls m -> exists r, creach (ls, []) (r, m) /\ all_done r.
 Proof. intros ls m H. exact (interleaving_creach str ls m H []). Qed.
 
-(* the executable schedule runner used by the correspondence is that LTS *)
-Theorem C08_sched_sound : forall sched (ls : list (list str)) w r,
+(* ---- exactly the serialised stanza: composition with the codec ---- *)
+
+(* When the data handed to Send is what the C01 printer writes for element trees and
+   every call returned nil, the socket's byte stream is the printed stream of those
+   trees, and C02's reader cuts it back into exactly those elements, one packet each. *)
+Theorem C08_wire_reparses : forall cfg so lo reg tok (es : list xtree),
+  c_conn cfg = CUp -> checks_count cfg = true \/ conforming so ->
+  Forall (fun r => r = RNil) (fst (run cfg so lo st0 (map send_tree es))) ->
+  forallb wf_doc es = true ->
+  forallb (top_ok reg tok) (bridge_trees es) = true ->
+  stream so 0 (s_sock (snd (run cfg so lo st0 (map send_tree es)))) = print_open_stream es /\
+  option_map (run_packets reg true tok)
+    (open_stream_tokens (stream so 0 (s_sock (snd (run cfg so lo st0 (map send_tree es))))))
+  = Some (pkts_of (bridge_trees es) ++ [Err EEof]).
+Proof. exact wire_reparses. Qed.
+
+(* ---- the correspondence's runner ---- *)
+
+(* not about the property: the executable schedule runner the harness's concurrent
+   cases are compared with IS the coarse LTS *)
+Theorem C08_runner_sound : forall sched (ls : list (list str)) w r,
   run_sched ls sched = (w, r, true) -> all_done r ->
   interleavings ls w /\ creach (ls, []) (r, w).
 Proof.
@@ -162,7 +272,7 @@ Proof.
   exact (run_sched_reach str sched ls w r [] H).
 Qed.
 
-Theorem C08_sched_complete : forall (ls : list (list str)) w,
+Theorem C08_runner_complete : forall (ls : list (list str)) w,
   interleavings ls w ->
   exists sched r, run_sched ls sched = (w, r, true) /\ all_done r /\ length sched = length w.
 Proof. exact (run_sched_complete str). Qed.
@@ -170,19 +280,34 @@ Proof. exact (run_sched_complete str). Qed.
 (* ---- non-vacuity ---- *)
 
 (* client, stream management and logger on; the second socket write fails after
-   1 byte, the third is short; a rejected IQ and an <r/> in between *)
+   1 byte, the third is short; a rejected IQ, a request under a pending id and an
+   <r/> in between *)
 Example C08_example :
   let so := fun k => match k with 1 => WErr 1 | 2 => WShort 1 | _ => WOk end in
   let lo := fun _ : nat => WOk in
   let ops := [OSend [60; 97; 47; 62]%N false; OSendIQ [1]%N TOther; OSendRaw [2; 3]%N false;
-              OSend [9; 9]%N true; OSendIQ [7]%N TGet] in
-  let r := run (mkC RClient true true CUp) so lo st0 ops in
-  fst r = [RNil; RReject; RErr ESock; RErr EShort; RNil] /\
+              OSend [9; 9]%N true; OSendIQ [8]%N TPending; OSendIQ [7]%N TGet] in
+  let r := run (mkC RClient true true CUp false) so lo st0 ops in
+  fst r = [RNil; RReject; RErr ESock; RErr EShort; RReject; RNil] /\
   s_sock (snd r) = [[60; 97; 47; 62]; [2; 3]; [9; 9]; [7]]%N /\
   stream so 0 (s_sock (snd r)) = [60; 97; 47; 62; 2; 9; 7]%N /\
   map snd (q_items (s_queue (snd r))) = [[60; 97; 47; 62]; [7]]%N /\
   s_log (snd r) = [log_prefix; [60; 97; 47; 62]; log_sep; log_prefix; log_prefix;
                    log_prefix; [7]; log_sep]%N.
+Proof. repeat split. Qed.
+
+(* the same over WebSocket: the short count is not seen, the log gets one line per
+   write, before the socket, also for the write that fails *)
+Example C08_example_ws :
+  let so := fun k => match k with 1 => WErr 1 | _ => WOk end in
+  let lo := fun _ : nat => WErr 0 in
+  let ops := [OSend [60]%N false; OSendRaw [2; 3]%N false; OSendIQ [7]%N TGet] in
+  let r := run (mkC RClient true true CUp true) so lo st0 ops in
+  fst r = [RNil; RErr ESock; RNil] /\
+  s_sock (snd r) = [[60]; [2; 3]; [7]]%N /\
+  map snd (q_items (s_queue (snd r))) = [[60]; [7]]%N /\
+  s_log (snd r) = [log_prefix ++ [60] ++ log_sep; log_prefix ++ [2; 3] ++ log_sep;
+                   log_prefix ++ [7] ++ log_sep]%N.
 Proof. repeat split. Qed.
 
 Example C08_example_conc :
@@ -192,6 +317,26 @@ Proof.
   split; [reflexivity|].
   apply (run_sched_sound str [1; 0; 0] _ _ [[]; []; []]); [reflexivity|].
   repeat constructor.
+Qed.
+
+(* the hypotheses of the lock theorems are satisfiable: the torn and the lost
+   schedules above exist without the lock; with it, e.g. one held stanza whose write
+   is refused after one byte *)
+Example C08_example_lock :
+  let so := fun _ : nat => WErr 1 in
+  let st := mkL false [mkLS PIdle [] [false]] [5]%N q_init [mkE 0 [5; 6]%N true (WErr 1)] in
+  lreach true so (linit [[([5; 6]%N, true)]]) st /\ lall_done st.
+Proof.
+  split; [|repeat constructor].
+  unfold linit. simpl. eapply lr_step.
+  { apply (ls_begin true (fun _ => WErr 1) false [] [] [5; 6]%N true [] [] [] q_init []). reflexivity. }
+  simpl. eapply lr_step.
+  { apply (ls_chunk true (fun _ => WErr 1) true [] [] true (WErr 1) [5]%N [] [] [] []
+             (q_push q_init [5; 6]%N) [mkE 0 [5; 6]%N true (WErr 1)]). discriminate. }
+  simpl. eapply lr_step.
+  { apply (ls_end true (fun _ => WErr 1) true [] [] true (WErr 1) [] [] [5]%N
+             (q_push q_init [5; 6]%N) [mkE 0 [5; 6]%N true (WErr 1)]). }
+  simpl. apply lr_refl.
 Qed.
 
 Print Assumptions C08_one_write.
@@ -204,14 +349,23 @@ Print Assumptions C08_sock_error_reported.
 Print Assumptions C08_logger_faults_reported.
 Print Assumptions C08_failure_is_error.
 Print Assumptions C08_success_is_nil.
+Print Assumptions C08_ws_failure_reported.
+Print Assumptions C08_ws_log_before_socket.
 Print Assumptions C08_success_whole.
 Print Assumptions C08_wire_stream.
+Print Assumptions C08_each_success_whole.
 Print Assumptions C08_logger_transparent.
 Print Assumptions C08_logger_results.
 Print Assumptions C08_log_format.
-Print Assumptions C08_wire_is_interleaving.
+Print Assumptions C08_lock_wire_whole.
+Print Assumptions C08_lock_makes_writes_atomic.
+Print Assumptions C08_lock_wire_prefix.
+Print Assumptions C08_nolock_tears_refuted.
+Print Assumptions C08_nolock_loses_queue_entry_refuted.
+Print Assumptions C08_atomic_writes_merge.
 Print Assumptions C08_wire_order_per_sender.
 Print Assumptions C08_merge_is_permutation.
 Print Assumptions C08_every_merge_reachable.
-Print Assumptions C08_sched_sound.
-Print Assumptions C08_sched_complete.
+Print Assumptions C08_wire_reparses.
+Print Assumptions C08_runner_sound.
+Print Assumptions C08_runner_complete.
